@@ -245,7 +245,10 @@ func (m *SessionManager) RemoveSession(id uint16) {
 	defer m.mu.Unlock()
 
 	if session, ok := m.sessions[id]; ok {
-		delete(m.macToSession, session.ClientMAC.String())
+		// The MAC index may already point at a newer session of this client
+		if m.macToSession[session.ClientMAC.String()] == id {
+			delete(m.macToSession, session.ClientMAC.String())
+		}
 		delete(m.sessions, id)
 	}
 }
@@ -283,7 +286,9 @@ func (m *SessionManager) CleanupExpired(timeout time.Duration) int {
 		session.mu.RUnlock()
 
 		if inactive {
-			delete(m.macToSession, session.ClientMAC.String())
+			if m.macToSession[session.ClientMAC.String()] == id {
+				delete(m.macToSession, session.ClientMAC.String())
+			}
 			delete(m.sessions, id)
 			removed++
 		}
